@@ -153,7 +153,7 @@ def query_case(ctx, text, docs):
     canary(ctx)
     case = {"kind": "query", "text": text, "docs": docs}
     ctx.evaluation()
-    if nesting(text) > 60 or len(text) > 600:
+    if nesting(text) > 60 or len(text) > 20000:
         ctx.count("skipped_too_deep_or_long")
         return
     c = guarded(lambda: jsonpath.compile(text))
